@@ -353,6 +353,9 @@ func (a *c05) reachFrom(fn *ssa.Function, followGo bool) map[*ssa.Function]bool 
 						walk(h)
 					}
 				}
+				if h, ok := arg.(*ssa.Function); ok && a.p.funcSet[h] && a.passedToCaller(ci, h) {
+					walk(h) // a capture-free closure / plain function handed to a callback helper
+				}
 			}
 		})
 	}
@@ -944,27 +947,36 @@ func (a *c05) syncCallbacks(ci ssa.CallInstruction) []*ssa.Function {
 // syncCallbackOnly: every use of fn as a value is as such a callback.
 func (a *c05) syncCallbackOnly(fn *ssa.Function) bool {
 	par := fn.Parent()
-	if par == nil || len(a.sites[fn]) > 0 {
+	if par == nil {
 		return false
 	}
-	n, ok := 0, true
-	allInstrs(par, func(in ssa.Instruction) {
-		mc, isMC := in.(*ssa.MakeClosure)
-		if !isMC || mc.Fn != fn {
-			return
+	uses := a.funcValueUses(fn)
+	if len(uses) == 0 {
+		return false
+	}
+	for _, u := range uses {
+		ci, isCall := u.(ssa.CallInstruction)
+		if !isCall {
+			return false
 		}
-		for _, u := range refs(mc) {
-			if _, isDbg := u.(*ssa.DebugRef); isDbg {
-				continue
-			}
-			ci, isCall := u.(ssa.CallInstruction)
-			if !isCall || (len(a.syncCallbacks(ci)) == 0 && !a.passedToCaller(ci, mc)) {
-				ok = false
-			}
-			n++
+		if cv := ci.Common().Value; cv == ssa.Value(fn) {
+			return false // called directly, not handed over
+		} else if mc, ok := cv.(*ssa.MakeClosure); ok && mc.Fn == fn {
+			return false
 		}
-	})
-	return ok && n > 0
+		handed := false
+		for _, arg := range ci.Common().Args {
+			if mc, ok := arg.(*ssa.MakeClosure); (ok && mc.Fn == fn) || arg == ssa.Value(fn) {
+				if len(a.syncCallbacks(ci)) > 0 || a.passedToCaller(ci, arg) {
+					handed = true
+				}
+			}
+		}
+		if !handed {
+			return false
+		}
+	}
+	return true
 }
 
 // c05Atom: a boolean SSA value known to have the given truth.
@@ -1519,5 +1531,33 @@ func (a *c05) tableTargets(ci ssa.CallInstruction) []*ssa.Function {
 	for _, e := range els {
 		out = append(out, e.fn)
 	}
+	return out
+}
+
+// funcValueUses: the instructions of fn's parent that use fn as a value — an
+// anonymous function with captured variables is a MakeClosure, one WITHOUT
+// captures is the bare *ssa.Function (go func(w *sync.WaitGroup){...}(wg)).
+func (a *c05) funcValueUses(fn *ssa.Function) []ssa.Instruction {
+	par := fn.Parent()
+	if par == nil {
+		return nil
+	}
+	var out []ssa.Instruction
+	allInstrs(par, func(in ssa.Instruction) {
+		if mc, ok := in.(*ssa.MakeClosure); ok && mc.Fn == fn {
+			for _, u := range refs(mc) {
+				if _, dbg := u.(*ssa.DebugRef); !dbg {
+					out = append(out, u)
+				}
+			}
+			return
+		}
+		for _, op := range in.Operands(nil) {
+			if op != nil && *op == ssa.Value(fn) {
+				out = append(out, in)
+				break
+			}
+		}
+	})
 	return out
 }
